@@ -161,6 +161,7 @@ class Enum_:
     name: str
     members: list[str]
     doc: str = ""
+    body_extra: str = ""      # raw lines appended to the enum body (methods, properties, nested classes: no declarations)
 
 
 @dataclass
@@ -354,9 +355,24 @@ def enum_src(e: Enum_, style: str, indent: str) -> str:
         out += f'{indent}    """{e.doc}"""\n'
     for i, m in enumerate(e.members):
         out += f"{indent}    {m} = {i + 1}\n"
-    if not e.members and not e.doc:
+    if not e.members and not e.doc and not e.body_extra:
         out += f"{indent}    pass\n"
+    for line in e.body_extra.splitlines():
+        out += f"{indent}    {line}\n" if line else "\n"
     return out
+
+
+ENUM_BODY_EXTRA = ('''
+def describe_{k}(self) -> str:
+    return self.name.lower()
+
+@property
+def code_{k}(self) -> int:
+    return 1
+
+class Inner_{k}:
+    level_{k}: int = 1
+''')
 
 
 HEADER = ("from __future__ import annotations\n"
@@ -888,6 +904,9 @@ def gen_package(rng: random.Random, idx: int, *, style="plaintext", nmods=3, ree
         for _ in range(rng.randrange(0, 2)):
             m.enums.append(Enum_(names.fresh("enum"), [names.fresh("member") for _ in range(rng.randrange(0, 4))],
                                  doc="Enum doc." if docs and rng.random() < 0.5 else ""))
+            if len(m.enums[-1].members) == 3:   # no random draw: keeps the rest of the stream as it was
+                k = m.enums[-1].name.lower()
+                m.enums[-1].body_extra = ENUM_BODY_EXTRA.replace("{k}", k)
         for _ in range(rng.randrange(1, 5)):
             m.funcs.append(gen_func(rng, names, refs_here if cross_refs else [], [tv], private=rng.random() < 0.2, docs=docs,
                                     keywords=keywords, doc_types=doc_types))
